@@ -353,3 +353,37 @@ def register_chain_actor(router, name, queue, log, tag, follow_name, conn):
     body.__name__ = name
     router.actor(name=name, queue=queue)(body)
     return body
+
+
+# ---------------------------------------- C17: an actor that uses several connections while it runs
+def register_cross_actor(router, name, queue, conns, log):
+    """conns: {label: Connection}. The body enqueues one raw message on every connection's broker (its own and the others)
+    and reads an argument bucket there: all of it happens inside the wrapped actor_run of the worker's connection."""
+    async def body(m: MessageDependency):
+        log.add(k="actor_start", id=m.key.id_, attempt=m.parameters.retries.already_tried, actor=name)
+        for lab, c in sorted(conns.items()):
+            mb = c.message_broker
+            await mb.enqueue(mb.ROUTING_KEY_CLASS(id_=f"{m.key.id_}-to-{lab}", topic="t", queue="manual" + lab), "from-actor", mb.PARAMETERS_CLASS())
+            if c.args_bucket_broker is not None:
+                await c.args_bucket_broker.get_bucket("no-such-bucket")
+        log.add(k="actor_end", id=m.key.id_, attempt=m.parameters.retries.already_tried, actor=name)
+        return None
+
+    body.__name__ = name
+    router.actor(name=name, queue=queue)(body)
+    return body
+
+
+# ---------------------------------------- C08: a two-step pipeline that re-uses one argument bucket id for its next step
+def register_bucket_chain_actor(router, name, conn, calls, args_id):
+    from repid import Job
+
+    async def body(step: int = 0, note: str = "none", extra: Optional[int] = None):
+        calls.append({"step": step, "note": note, "extra": extra})
+        if step == 1:
+            # next step: same bucket id (the documented chaining recipe), new content that leaves `note` and `extra` out
+            await Job(name, id_=f"{name}-2", args={"step": 2}, args_id=args_id, use_args_bucketer=True, store_result=False, _connection=conn).enqueue()
+
+    body.__name__ = name
+    router.actor(name=name)(body)
+    return body
